@@ -456,6 +456,10 @@ def run(ctx, rep):
                     op = s[2][2][idx]
                     if (b.impl or {}).get("trait", "").endswith(("Default", "Clone", "Deserialize")) or "::_::" in b.path or "_serde" in b.path or "Deserialize" in b.path:
                         continue
+                    # derive-generated constructors (clap's FromArgMatches / Args / Parser, conflate's Merge) build the struct from
+                    # parsed arguments, not from another dry_run flag
+                    if re.search(r" as (clap|clap_builder|conflate|merge)::", b.path) or (b.impl or {}).get("trait", "").startswith(("clap", "conflate")):
+                        continue
                     e = flow.expr_of(b, op)
                     src = _src_name(b, e)
                     nw += 1
